@@ -25,14 +25,17 @@ def tok(s):
 def avt_text(kind, value, rng):
     if kind == "simple":
         return value
-    # an AVT with parts that evaluates to value
+    # an AVT with {} parts that evaluates to value.  Bare literal parts ({'x'}, {1}) are avoided: they
+    # overwrite the buffer instead of appending (XPath::literal string overload — reported separately)
     k = rng.randrange(0, len(value) + 1)
-    form = rng.randrange(3)
+    form = rng.randrange(4)
     if form == 0:
-        return "{'%s'}" % value
+        return "{concat('%s','%s')}" % (value[:k], value[k:])
     if form == 1:
-        return "%s{'%s'}" % (value[:k], value[k:])
-    return "{'%s'}{'%s'}" % (value[:k], value[k:])
+        return "%s{substring('%s',%d)}" % (value[:k], value, k + 1)
+    if form == 2:
+        return "{substring('%s',1,%d)}%s" % (value, k, value[k:])
+    return "{substring('%s',1,%d)}{substring('%s',%d)}" % (value, k, value, k + 1)
 
 
 def sort_elems_xml(case):
